@@ -1,6 +1,7 @@
 package main
 
 import (
+	"go/types"
 	"strings"
 
 	"golang.org/x/tools/go/ssa"
@@ -168,4 +169,78 @@ func init() {
 		return m
 	})
 	_ = strings.Contains
+}
+
+// strings.Split and strconv.ParseUint on ropes made of literal text and decimal renderings
+// (strconv.FormatUint of a symbolic number): the separator cannot occur inside a decimal
+// rendering, and parsing a decimal rendering gives the number back (contract of strconv).
+// This lets a harness hand a list option "x,y,z" with symbolic numbers to the real parser.
+func init() {
+	prevSplit := intrinsics["strings.Split"]
+	intrinsics["strings.Split"] = func(ex *Exec, st *State, fv FuncV, args []Value, res ssa.Value, at ssa.Instruction) bool {
+		s, sep := args[0].(StrV), args[1].(StrV)
+		if _, ok := s.concrete(); ok {
+			return prevSplit(ex, st, fv, args, res, at)
+		}
+		sepC, ok := sep.concrete()
+		if !ok || sepC == "" || strings.ContainsAny(sepC, "0123456789-") {
+			fail("strings.Split: separator %s on a symbolic string", describe(sep))
+		}
+		pieces := []StrV{{}}
+		for _, g := range s.segs {
+			switch g.op {
+			case "":
+				parts := strings.Split(g.lit, sepC)
+				for i, p := range parts {
+					if i > 0 {
+						pieces = append(pieces, StrV{})
+					}
+					pieces[len(pieces)-1] = pieces[len(pieces)-1].concat(litStr(p))
+				}
+			case "dec":
+				pieces[len(pieces)-1] = pieces[len(pieces)-1].concat(StrV{segs: []Seg{g}})
+			default:
+				fail("strings.Split on a string containing ‹%s›", g.op)
+			}
+		}
+		es := make([]Value, len(pieces))
+		for i, p := range pieces {
+			es[i] = p
+		}
+		id := st.alloc(types.NewArray(types.Typ[types.String], int64(len(es))), ArrV{e: es})
+		setRes(st, res, SliceV{obj: id, off: u64(0), len: u64(int64(len(es))), cap: u64(int64(len(es)))})
+		return true
+	}
+	prevParse := intrinsics["strconv.ParseUint"]
+	intrinsics["strconv.ParseUint"] = func(ex *Exec, st *State, fv FuncV, args []Value, res ssa.Value, at ssa.Instruction) bool {
+		s := args[0].(StrV)
+		if _, ok := s.concrete(); ok {
+			return prevParse(ex, st, fv, args, res, at)
+		}
+		base, bits := args[1].(*Term), args[2].(*Term)
+		if len(s.segs) != 1 || s.segs[0].op != "dec" || !base.isConst || !bits.isConst || (base.v != 10 && base.v != 0) {
+			fail("strconv.ParseUint of %s", describe(s))
+		}
+		g := s.segs[0]
+		t, sg, b := g.args[0].(*Term), g.args[1].(*Term), g.args[2].(*Term)
+		if sg.v == 1 || b.v != 10 {
+			fail("strconv.ParseUint of a signed or non-decimal rendering")
+		}
+		nb := int(bits.v)
+		if nb == 0 {
+			nb = 64
+		}
+		v64 := bvZext(t, 64)
+		if t.w <= nb {
+			setRes(st, res, TupleV{v64, IfaceV{}})
+			return true
+		}
+		fits := bvCmp("bvule", v64, bvConst(mask(nb), 64))
+		return ex.forkAlts(st, []alt{
+			{cond: fits, apply: func(st *State) { setRes(st, res, TupleV{v64, IfaceV{}}) }},
+			{cond: tNot(fits), apply: func(st *State) {
+				setRes(st, res, TupleV{bvConst(mask(nb), 64), ex.newErr(at, litStr("value out of range"))})
+			}},
+		})
+	}
 }
